@@ -134,7 +134,7 @@ Proof. cbn [kinds_ok]. induction fs as [|x r IH]; cbn [kinds_ok_l]; tauto. Qed.
 Lemma leaf_canon k v c : kind_ok k -> octets_ok c = true ->
   prim_decode (lop k Der) c = Ok v -> lenc k v = Some c.
 Proof.
-  destruct k as [ty| | | |]; cbn [lop kind_ok]; intros Hk Hok H; [| | | |contradiction].
+  destruct k as [ty| | | | | |]; cbn [lop kind_ok]; intros Hk Hok H; [| | | |contradiction| |].
   - rewrite prim_decode_map in H. destruct (prim_decode (int_accessor ty) c) as [x| | | |] eqn:E; try discriminate.
     injection H as <-. destruct (int_accessor_sound ty c x Hk Hok E) as (_ & _ & Hr).
     cbn [lenc]. replace (ty <? 10) with true by lia. rewrite Hr. cbn [andb]. f_equal.
@@ -144,6 +144,11 @@ Proof.
   - rewrite (prim_decode_map to_null (fun _ => VNull)) in H. rewrite to_null_spec in H.
     destruct c; [|discriminate]. injection H as <-. reflexivity.
   - rewrite prim_decode_map, (oid_from_prim_spec c Hok) in H. destruct (oid_ok c) eqn:E; [|discriminate].
+    injection H as <-. cbn [lenc]. rewrite Hok, E. reflexivity.
+  - rewrite prim_decode_map, (integer_from_prim_spec c Hok) in H. destruct (minimal c) eqn:E; [|discriminate].
+    injection H as <-. cbn [lenc]. rewrite Hok, E. reflexivity.
+  - rewrite prim_decode_map, (unsigned_int_from_prim_spec c Hok) in H.
+    destruct (minimal c && nonneg_head c) eqn:E; [|discriminate].
     injection H as <-. cbn [lenc]. rewrite Hok, E. reflexivity.
 Qed.
 
